@@ -140,8 +140,10 @@ theorem processDepositsForPool_sameSt (env : Env) (k : PoolKey) (s : State) (dep
   split at h
   · cases h
   · cases h
-  · obtain ⟨coins, _, h2⟩ := Outcome.bind_eq_ok h
-    cases h2; rfl
+  · split at h
+    · cases h; exact SameSt.refl s
+    · obtain ⟨coins, _, h2⟩ := Outcome.bind_eq_ok h
+      cases h2; rfl
 
 theorem processDeposits_sameSt (env : Env) (s s' : State) (h : processDeposits env s = .ok s') :
     SameSt s s' := by
